@@ -65,6 +65,14 @@ Injection kinds
   {"when": pt, "signal": "SIGINT"}                    signal delivered on entering the call, the call IS
                                                       executed; rocfl's handler calls OcflRepo::close
   {"when": pt, "delay_us": n}                         the call is delayed by n microseconds on entry
+                                                      (held BEFORE the call takes effect)
+  {"when": pt, "delay_exit_us": n}                    the call is executed, then the command is held for n
+                                                      microseconds before the call returns (held AFTER the
+                                                      effect: e.g. at the unlink of a lock file = the lock is
+                                                      already released while the command has not moved on).
+                                                      Both kinds are marked (DELAYED) by strace -> Call.injected;
+                                                      Call.ts is the ENTRY stamp in both cases; wait_held() and
+                                                      held_window(n) work for both
   The n of a point may also be a strace expression string: ("write", "3+") = every write from the 3rd on.
 """
 import os
@@ -586,8 +594,10 @@ def _inject_args(inject, setname):
         spec = "signal=%s:%s" % (inject["signal"], spec)
     elif "delay_us" in inject:
         spec = "delay_enter=%d:%s" % (int(inject["delay_us"]), spec)
+    elif "delay_exit_us" in inject:
+        spec = "delay_exit=%d:%s" % (int(inject["delay_exit_us"]), spec)
     else:
-        raise ValueError("inject needs one of error / signal / delay_us: %r" % (inject,))
+        raise ValueError("inject needs one of error / signal / delay_us / delay_exit_us: %r" % (inject,))
     paths = inject.get("path") or []
     if isinstance(paths, str):
         paths = [paths]
